@@ -21,6 +21,7 @@ RULE = ("random sequences of all classes (quick N <= 40, thorough N <= 150) x 8 
         "images x window 1..N x step 1..N x word size 1..6; distinct = distinct (sequence, configuration); "
         "non-trivial = at least 2 windows or a non-zero value")
 RULE += ("; added after the mutation rounds: size spelled as string / float; steps >= N; numpy-integer arguments; 600-900-residue low-complexity chains with windows 255..640; one user dictionary edited in place between calls; the first cases of every shard are judged again at its end")
+RULE += ("; round 5: user dictionaries with extra non-amino-acid keys mapping to arbitrary values")
 EXHAUSTIVE = {"quick": False, "thorough": False}
 ASSUMPTIONS = [
     "Wootton-Federhen entropy base = number of letters of the reduced alphabet (predefined: its size; user: number "
